@@ -13,13 +13,13 @@ class C13(Prop):
     id = 'C13'
     lean_modules = ['RSocketModel.Props.C13']
     technique = 'Lean 4 proof (induction over allocate/register/finish histories, parametric id width) + differential correspondence with StreamControl'
-    level_text = ('Theorems c13_alloc_sound, c13_fails_iff_full, c13_history (all id widths k>=1, all active sets, all histories) are kernel-checked on a model '
+    level_text = ('c13_request_on_active_id_rejected (engine model: for every state, stream-opening frame type and handler behaviour, a request on an id that is still active yields exactly one ERROR[REJECTED] and changes nothing), Theorems c13_alloc_sound, c13_fails_iff_full, c13_history (all id widths k>=1, all active sets, all histories) are kernel-checked on a model '
                   'of StreamControl; the model is tied to the code by the regenerated constant (2^31-1) and by running the real StreamControl and the compiled '
                   'Lean model on the same histories (exhaustive short histories on a 3-bit space, random on 3/4/7 bits, full width near the wrap).')
     level_note = ('Trusted: Lean kernel, axioms propext/Classical.choice/Quot.sound, the hand-written model as far as the correspondence reaches, harness; '
                   'dict semantics of CPython.')
     design_ref = '§5 C13'
-    rule = ('histories of allocate(+register) / allocate-only / register(id) / finish(id) / query(id) on the real StreamControl with '
+    rule = ('a real endpoint (either role) with a stream opened by either side, then a request of any of the four types on that same id, replayed on the engine model; histories of allocate(+register) / allocate-only / register(id) / finish(id) / query(id) on the real StreamControl with '
             '_maximum_stream_id = 2^k-1 (k in 3,4,7 random; k=3 exhaustive up to length 5; k=31 starting near the wrap); '
             'a case is non-trivial when at least one allocation skipped a live id or 0, wrapped, or failed; distinct = distinct (k, first, ops, start)')
     assumptions = ['ids are handed out only by StreamControl.allocate_stream', 'dict membership is the liveness test']
@@ -63,9 +63,17 @@ class C13(Prop):
             live += sorted({top - rng.randint(0, 12) for _ in range(rng.randint(0, 4))})
             ops = [rng.choice(['a', 'a', 'a', 'o', 'f%d' % rng.randint(1, 20), 'q%d' % rng.randint(0, 20)]) for _ in range(rng.randint(1, 25))]
             out.append({'k': 31, 'first': first, 'start': {'cur': cur, 'live': sorted(set(live))}, 'ops': ops})
+        # at the endpoint: an incoming request on an id that is still active (opened by either side) is rejected and the existing stream is untouched
+        for _ in range(40 if tier == 'quick' else 2000):
+            out.append({'mode': 'endpoint', 'role': rng.choice(['client', 'server']), 'first_by': rng.choice(['peer', 'peer', 'local']),
+                        'first_ty': rng.choice(['stream', 'channel', 'rr']), 'second_ty': rng.choice(['REQUEST_RESPONSE', 'REQUEST_STREAM', 'REQUEST_CHANNEL', 'REQUEST_FNF']),
+                        'between': rng.randint(0, 2)})
         return out
 
     def run_impl(self, case):
+        if case.get('mode') == 'endpoint':
+            from harness import detloop
+            return detloop.run(self._endpoint, case)
         from rsocket.stream_control import StreamControl
         from rsocket.exceptions import RSocketStreamAllocationFailure, RSocketStreamIdInUse
         k = case['k']
@@ -110,16 +118,66 @@ class C13(Prop):
         return {'cur0': cur0, 'live0': live0, 'outs': outs, 'cur': sc._current_stream_id,
                 'active': sorted(sc._streams), 'pre': pre}
 
+    async def _endpoint(self, loop, case):
+        from harness import engine
+        H = engine.EngineRun(loop, case['role'])
+        await H.start()
+        script = []
+        if case['role'] == 'server':
+            script.append([{'op': 'recv', 'frame': {'ty': 'SETUP', 'sid': 0, 'data': [1]}, 'beh': 'k'}])
+        peer_id = 1 if case['role'] == 'server' else 2
+        if case['first_by'] == 'peer':
+            sid = peer_id
+            ty, beh = {'stream': ('REQUEST_STREAM', 'pb'), 'channel': ('REQUEST_CHANNEL', 'ch11'), 'rr': ('REQUEST_RESPONSE', 'fp')}[case['first_ty']]
+            script.append([{'op': 'recv', 'frame': {'ty': ty, 'sid': sid, 'data': [2], 'n': 3}, 'beh': beh}])
+        else:
+            sid = 2 if case['role'] == 'server' else 1
+            op = {'stream': {'op': 'RS', 'data': [2], 'n': 3, 'sub': True}, 'channel': {'op': 'RC', 'data': [2], 'n': 3, 'pub': True, 'sub': True},
+                  'rr': {'op': 'RR', 'data': [2]}}[case['first_ty']]
+            script.append([op])
+        for i in range(case['between']):
+            script.append([{'op': 'recv', 'frame': {'ty': 'REQUEST_FNF', 'sid': peer_id + 2 * (i + 1), 'data': [3]}, 'beh': 'k'}])
+        script.append([{'op': 'recv', 'frame': {'ty': case['second_ty'], 'sid': sid, 'data': [4], 'n': 2}, 'beh': {'REQUEST_RESPONSE': 'fp', 'REQUEST_STREAM': 'pb', 'REQUEST_CHANNEL': 'ch11', 'REQUEST_FNF': 'k'}[case['second_ty']]}])
+        await H.run_script(script)
+        steps = H.steps()
+        table = sorted(H.ep._stream_control._streams.keys())
+        await H.finish()
+        return {'mode': 'endpoint', 'sid': sid, 'steps': steps, 'table': table}
+
     def model_lines(self, case, obs):
+        if case.get('mode') == 'endpoint':
+            first = 2 if case['role'] == 'server' else 1
+            return ['eng %d 0 %s' % (first, ' '.join(m for m, _ in obs['steps']))]
         live = ','.join(map(str, obs['live0'])) or '-'
         return ['sid %d %d %s %s' % (case['k'], obs['cur0'], live, _ops_str(case['ops']))]
 
     def compare(self, case, obs, answers):
+        if case.get('mode') == 'endpoint':
+            from harness import engine
+            body = answers[0].split(' || ')[0]
+            msteps = body.split(' | ')
+            for idx, ((marker, outs), ms) in enumerate(zip(obs['steps'], msteps)):
+                mo = engine.canon_model_step(ms)
+                if outs != mo:
+                    return 'step %d (%s): impl %s / model %s' % (idx, marker, ' '.join(outs)[:200], ' '.join(mo)[:200])
+            return None
         impl = '%s | cur=%d active=%s' % (' '.join(obs['outs']), obs['cur'], ','.join(map(str, obs['active'])) or '-')
         if impl != answers[0]:
             return 'impl: %s / model: %s' % (impl, answers[0])
 
     def oracle(self, case, obs):
+        if case.get('mode') == 'endpoint':
+            fails = []
+            sid = obs['sid']
+            marker, outs = obs['steps'][-1]
+            rejected = [t for t in outs if t.startswith('S:ERROR:%d:' % sid) and t.split(':')[5] == '514']
+            if len(rejected) != 1 or any(t.startswith('HC:') or t.startswith('CR:') or t.startswith('PS:') for t in outs):
+                fails.append({'signature': 'request-on-active-id-not-rejected',
+                              'what': 'stream %d was active (opened by the %s as %s); incoming %s on it produced %s instead of one ERROR[REJECTED]' % (
+                                  sid, case['first_by'], case['first_ty'], case['second_ty'], outs)})
+            if sid not in obs['table']:
+                fails.append({'signature': 'existing-stream-replaced-or-dropped', 'what': 'stream %d is no longer registered after the rejected request (table %s)' % (sid, obs['table'])})
+            return fails
         fails = []
         k = case['k']
         mod = 1 << k
@@ -169,6 +227,8 @@ class C13(Prop):
 
     def nontrivial(self, case, obs):
         import json
+        if case.get('mode') == 'endpoint':
+            return json.dumps(case, sort_keys=True)
         interesting = False
         prev = obs['cur0']
         for op, out in zip(case['ops'], obs['outs']):
@@ -182,6 +242,10 @@ class C13(Prop):
         return json.dumps([case['k'], case['first'], case['start'], case['ops']]) if interesting else None
 
     def stats(self, case, obs):
+        if case.get('mode') == 'endpoint':
+            yield 'mode=endpoint'
+            yield 'first_by=' + case['first_by']
+            return
         yield 'k=%d' % case['k']
         yield 'first=%d' % case['first']
         if 'X' in obs['outs']:
@@ -200,6 +264,10 @@ class C13(Prop):
                 prev = i
 
     def shrink_candidates(self, case):
+        if case.get('mode') == 'endpoint':
+            if case['between']:
+                yield dict(case, between=case['between'] - 1)
+            return
         ops = case['ops']
         for i in range(len(ops)):
             yield dict(case, ops=ops[:i] + ops[i + 1:])
